@@ -49,6 +49,8 @@ class SolveRecorder:
     def reset(self):
         """called when an optimize() starts: the harmonic-extension solve judged is the one of the LAST optimize"""
         self.first = None
+        self.last = None        # the last smoothing system (matrix, right-hand side, answer)
+        self.seen_first = False
         self.later_sv = None    # smallest sigma_min/sigma_max over the matrices of the later (smoothing) solves
 
     def __enter__(self):
@@ -59,7 +61,10 @@ class SolveRecorder:
             rec.count += 1
             if rec.first is None:
                 rec.first = (A.copy(), np.array(b, dtype=complex).copy(), np.array(x, dtype=complex).reshape(-1).copy())
-            elif A.shape[0] and A.shape[0] <= 600:
+            if rec.first is not None and rec.count > 0 and (A is not rec.first[0]) and A.shape[0] and A.shape[0] <= 600 and rec.seen_first:
+                rec.last = (A.copy(), np.array(b, dtype=complex).copy(), np.array(x, dtype=complex).reshape(-1).copy())
+            rec.seen_first = True
+            if rec.first is not None and rec.last is not None and A.shape[0] and A.shape[0] <= 600:
                 try:
                     sv = np.linalg.svd(A.toarray(), compute_uv=False)
                     ratio = float(sv[-1] / sv[0]) if sv[0] > 0 else 0.0
@@ -223,6 +228,9 @@ def run_case(c, mesh=None):
         return out
     if rec.later_sv is not None and len(fe) > 0:
         out["smooth_sv"] = rec.later_sv
+    if rec.last is not None and len(fe) > 0:
+        A_, b_, x_ = rec.last
+        out["smooth_last"] = {"A": mat_entries(A_), "b": [cpair(z) for z in b_], "x": [cpair(z) for z in x_]}
     if rec.first is not None and len(fe) > 0:  # the bordered branch: first call = the harmonic-extension solve
         A, b, x = rec.first
         out["solve"] = {"A": mat_entries(A), "shape": [int(A.shape[0]), int(A.shape[1])],
